@@ -149,6 +149,66 @@ def value_ctors(repo):
     return out
 
 
+def value_alternatives(e, fnode, before, conds=(), depth=4):
+    """[(expression, ((test, polarity), ...))]: the values `e` can denote at statement `before` of fnode, each with the facts under
+    which it is the one taken - independent of whether the choice is spelled `x = A if c else B`, `x = a or B`, or
+    `if c: x = A` ... (a name with no earlier assignment, e.g. a parameter, denotes itself)"""
+    from .flow import path_conditions
+    from .model import pos
+    if isinstance(e, ast.IfExp):
+        return value_alternatives(e.body, fnode, before, conds + ((e.test, True),), depth) + value_alternatives(e.orelse, fnode, before, conds + ((e.test, False),), depth)
+    if isinstance(e, ast.BoolOp) and isinstance(e.op, ast.Or):
+        out, c = [], conds
+        for x in e.values[:-1]:
+            out += [(a, cc + ((x, True),)) for a, cc in value_alternatives(x, fnode, before, c, depth)]
+            c = c + ((x, False),)
+        return out + value_alternatives(e.values[-1], fnode, before, c, depth)
+    if isinstance(e, ast.Name) and depth:
+        params = {a.arg for a in fnode.args.posonlyargs + fnode.args.args + fnode.args.kwonlyargs}
+        defs = [d for d in walk_local(fnode) if isinstance(d, ast.Assign) and len(d.targets) == 1 and isinstance(d.targets[0], ast.Name) and d.targets[0].id == e.id and pos(d) < pos(before)]
+        if defs:
+            out = []
+            unconditional = any(not path_conditions(d, fnode) for d in defs)
+            if e.id in params and not unconditional:
+                # the value handed in survives on the paths that take none of the assignments
+                neg = tuple((t, not p_) for d in defs for t, p_ in path_conditions(d, fnode)[-1:])
+                out.append((e, conds + neg))
+            for d in defs:
+                pc = tuple(path_conditions(d, fnode))
+                if e.id in names_in(d.value):
+                    out.append((d.value, conds + pc))          # x = f(x): not followed further
+                else:
+                    out += value_alternatives(d.value, fnode, d, conds + pc, depth - 1)
+            return out
+    return [(e, conds)]
+
+
+def says_none(t, pol, name):
+    """the fact (t is pol) implies that `name` is None / falsy"""
+    from .flow import split_conj
+    from .model import is_const
+    for a, ap in split_conj(t, pol):
+        if isinstance(a, ast.Name) and a.id == name and ap is False:
+            return True
+        if isinstance(a, ast.Compare) and len(a.ops) == 1 and isinstance(a.left, ast.Name) and a.left.id == name and is_const(a.comparators[0], None):
+            if (isinstance(a.ops[0], ast.Is) and ap is True) or (isinstance(a.ops[0], ast.IsNot) and ap is False):
+                return True
+    return False
+
+
+def says_not_none(t, pol, name):
+    """the fact (t is pol) implies that `name` is not None"""
+    from .flow import split_conj
+    from .model import is_const
+    for a, ap in split_conj(t, pol):
+        if isinstance(a, ast.Name) and a.id == name and ap is True:
+            return True
+        if isinstance(a, ast.Compare) and len(a.ops) == 1 and isinstance(a.left, ast.Name) and a.left.id == name and is_const(a.comparators[0], None):
+            if (isinstance(a.ops[0], ast.IsNot) and ap is True) or (isinstance(a.ops[0], ast.Is) and ap is False):
+                return True
+    return False
+
+
 def resolve_single_assign(expr, fnode, depth=4):
     """follow single-assignment local names to their defining expression"""
     while depth and isinstance(expr, ast.Name):
